@@ -69,7 +69,7 @@ func TestVerifSearch_C07_DecodeFailure(t *testing.T) {
 		go b.RunPollLoop()
 		events <- ev
 		ok := false
-		for i := 0; i < 100 && !ok; i++ {
+		for i := 0; i < 1000 && !ok; i++ {
 			time.Sleep(5 * time.Millisecond)
 			ok = res.Invalidated()
 		}
@@ -123,7 +123,7 @@ func TestVerifBounded_C07_TableVersions(t *testing.T) {
 		}
 		// an event of another database is skipped; once it has been taken from the channel the table map event before it is done
 		events <- verifRowsEventIn("otherdb")
-		for i := 0; i < 200 && len(events) > 0; i++ {
+		for i := 0; i < 5000 && len(events) > 0; i++ {
 			time.Sleep(time.Millisecond)
 		}
 		time.Sleep(2 * time.Millisecond)
